@@ -61,7 +61,7 @@ def classify_common(rec):
                 and any(s.kind == "take" and s.info.get("rng", (None, 0))[1] is None for s in rec["program"].steps):
             return "oracle-generic-offset"     # generic SQL may use OFFSET without LIMIT; SQLite cannot run it (F27 is repaired for sql.sqlite)
     # F29 (panic `name of this column has not been to be set`, gen_expr.rs) is FIXED (456bdcd, c83467e), and so is its recurrence
-    # F47 (21fe768 -> d060422): a panic is never excused
+    # F47r (21fe768 -> d060422): a panic is never excused
     if v == "sql-err" and re.search(r"no such column: _expr_\d+", str(rec.get("sqlite"))) and re.search(r" AS _expr_\d+", sql):
         return "F24-dangling-generated-alias"
     if v == "sql-err" and rec["program"].meta.get("let_at") and re.search(r"no such column: x\d+", str(rec.get("sqlite"))) and re.search(r"p0 AS \(SELECT \*", sql):
@@ -289,9 +289,9 @@ def directed_fixed():
         S("take", "take 3", "TTake None (Some (3))", rng=(None, 3)),
         S("distinct", "group {a} (take 1)", "TDistinct", nkeys=1)], False, ["a"]),
         {"t": [[1, 1, 0, 0, 0], [2, 1, 0, 0, 0], [3, 1, 0, 0, 0], [4, 2, 0, 0, 0], [5, 3, 0, 0, 0]], "u": [[1, 0, 0, 0]]}))
-    # F47 (regression of 21fe768): sorted take | distinct inside a let-bound relation: the ORDER BY in front of the LIMIT names a
+    # F47r (regression of 21fe768): sorted take | distinct inside a let-bound relation: the ORDER BY in front of the LIMIT names a
     # column the SELECT DISTINCT does not select -- panic
-    out.append(("F47/d060422", P.Program([
+    out.append(("F47r/d060422", P.Program([
         S("sort", "sort {id}", "TSort [(false, %s)]" % col("id"), keys=[(False, ("col", None, "id"))]),
         S("take", "take 2", "TTake None (Some (2))", rng=(None, 2)),
         S("select", "select {a, b}", "TSelect [(None, %s); (None, %s)]" % (col("a"), col("b"))),
